@@ -293,7 +293,41 @@ class OpGen:
         self.n += 1
         self.lines.append("OP %d %s" % (self.n, " ".join(str(t) for t in toks)))
 
-    def generate(self, exhaustive_values=False, iter_count=None, pairs_limit=None, str_limit=None):
+    def generate_tiny(self):
+        """a few operations at chosen ranks of an enum with tens of thousands of variants: first, last, middle and around 2^15.
+        No consuming iterator operation (the compiled model answers one of those in time linear in the enum, per item)."""
+        s = self.s
+        feats = s.features()
+        vals = [d for d, _, _ in s.sorted_discs()]
+        n = len(vals)
+        ranks = sorted(k for k in {0, 1, 2, n // 2 - 1, n // 2, 32766, 32767, 32768, 32769, 32770, n - 2, n - 1} if 0 <= k < n)
+        sel = [vals[k] for k in ranks]
+        self.op("tables")
+        lo, hi = repr_lo(s.repr), repr_hi(s.repr)
+        for k in ("tf", "tt"):
+            if {"tf": "try_from", "tt": "TryFrom"}[k] in feats:
+                for v in sorted({x for v in sel for x in (v - 1, v, v + 1) if lo <= x <= hi}):
+                    self.op(k, v)
+        for k, f in (("into", "into"), ("Into", "Into"), ("next", "next"), ("nb", "next_back"), ("as", "as_str"),
+                     ("disp", "Display"), ("dbg", "Debug"), ("istr", "IntoStr")):
+            if f in feats:
+                for v in sel:
+                    self.op(k, v)
+        if "MIN" in feats:
+            self.op("min")
+        if "MAX" in feats:
+            self.op("max")
+        if "iter" in feats:
+            self.op("iter", "l", "h", "n", "b", "l")
+        if "range" in feats:
+            for a, b in ((0, n - 1), (n - 1, 0), (32766, min(n - 1, 32770)), (n // 2, n - 1), (1, 32768)):
+                if a < n and b < n:
+                    self.op("range", vals[a], vals[b], "l", "h", "n", "b", "l")
+        return self.lines
+
+    def generate(self, exhaustive_values=False, iter_count=None, pairs_limit=None, str_limit=None, tiny=False):
+        if tiny:
+            return self.generate_tiny()
         s, rng = self.s, self.rng
         r = s.repr
         feats = s.features()
@@ -525,8 +559,17 @@ class Corpus:
             self.add_decl("B", "i32", list(range(-4000, -1000)) + list(range(5, 1500)), ["table"], note="i32 4.5k variants 2 runs",
                           iter_count=2, str_limit=0)
             self.add_decl("B", "u16", list(range(30000, 36000)), ["table"], note="u16 6000 variants across 0x8000", iter_count=1, str_limit=0)
-            # (enums with more than 2^15 variants or runs -- positions beyond i16::MAX -- are out of reach: rustc compiles a
-            # light feature set for them in seconds, but the compiled model's association lists need about an hour per enum)
+            # more than 2^15 variants / runs: positions, run counts and lengths beyond i16::MAX.  Features chosen so that rustc stays
+            # in seconds (no `[E; N]` table, no 33000-arm match); a handful of operations at chosen ranks only -- the compiled model's
+            # association lists answer a consuming iterator operation on such an enum in minutes, a full script set in about an hour
+            light = [("into", {}), ("as_str", {"mode": "table"}), ("Display", {}), ("MIN", {}), ("MAX", {}), ("next", {}), ("next_back", {}),
+                     ("try_from", {}), ("iter", {"mode": "next_and_back"}), ("range", {})]
+            for r, vals, note in (("i16", list(range(-16500, 16500)), "i16 33000 gapless"),
+                                  ("u32", [2 * k for k in range(33000)], "u32 33000 runs of one"),
+                                  ("i32", [3 * k - 50000 for k in range(16000)] + list(range(100000, 117000)), "i32 16000 runs then a run of 17000")):
+                ents = [(d, f"V{i}", None) for i, d in enumerate(vals)]
+                sub = mk_subject(self.sid("B"), r, ents, light, rng, family="B", note=note + " cfg=light", implicit_ok=False)
+                self.add(sub, tiny=True)
 
     # --- metamorphic: same value->name map under every admissible repr and several orders (C18)
     def fam_metamorphic(self):
